@@ -138,7 +138,7 @@ class Session:
             AttributeCollection.cached = None
             AttributeCollection.previous = b''
         try:
-            msg = Message.unpack(2, body, self.neg)
+            msg = Message.unpack(2, memoryview(bytearray(body)), self.neg)  # writable, as the receive buffer of the real reader is
             data = msg if msg.IS_EOR else msg.data
             text = self.encoder.update(self.us, 'receive', data, b'', b'', self.neg)
         except Notify as e:
